@@ -323,25 +323,14 @@ _driver_lock = threading.Lock()
 
 
 def build_driver(ctx, race=False):
-    """harness/cmd/conn for this run.  `go build` of the broker takes 10-130 s on a loaded machine even when nothing changed, so a
-    binary that is newer than every Go source of /repo and of the harness is reused as it is."""
+    """harness/cmd/conn for this run, always rebuilt by `go build` from the current tree of the repository under test (the Go
+    build cache makes an unchanged tree cheap); the binary lives where vlib.go_build puts it (its own directory for $VERIF_REPO)."""
     with _driver_lock:
         if race in _driver:
             return _driver[race]
-        exe = os.path.join(vlib.BIN, "race" if race else "plain", "conn")
-        newest = 0.0
-        for root in (vlib.REPO, os.path.join(vlib.VERIF, "harness")):
-            for dp, dn, fn in os.walk(root):
-                dn[:] = [d for d in dn if d not in (".git", "node_modules", "testdata")]
-                for f in fn:
-                    if (f.endswith(".go") and not f.endswith("_test.go")) or f == "go.mod" or (f == "go.sum" and root == vlib.REPO):
-                        newest = max(newest, os.path.getmtime(os.path.join(dp, f)))
-        if os.path.exists(exe) and os.path.getmtime(exe) > newest:
-            vlib.log("[build] %s is newer than every source: reused" % exe)
-        else:
-            ctx.go_build(["./cmd/conn"], race=race)
-        _driver[race] = exe
-        return exe
+        out = ctx.go_build(["./cmd/conn"], race=race)
+        _driver[race] = os.path.join(out, "conn")
+        return _driver[race]
 
 
 def run_driver(ctx, scenarios, race=False, par=6, timeout=120):
